@@ -76,6 +76,8 @@ func C08(c *Ctx) {
 
 	r.Rule("C08-e", "every left-recursive group gets a leader: ComputeLeftRecursives sets Leader on the rule findLeader returns for an SCC with more than one rule and on the rule itself for a self-loop - in the same branches that set LeftRecursive - otherwise the runtime evaluates the cycle plainly and recurses without end")
 	c08Leaders(c)
+	r.Rule("C08-g", "a component of the first-graph with a single rule is a left-recursive group exactly when the rule references itself: every loop over the components returned by StronglyConnectedComponents that tells components apart by their size also consults the self-loop graph[v][v] (the leader must lie on every cycle, direct ones included)")
+	sccSelfLoops(c, "C08-g")
 	r.Rule("C08-f", "the first-invocation graph is read-only for its consumers: no function that receives the graph built by MakeFirstGraph (findLeader, FindCyclesInSCC, reduceGraph, the component search) stores into it or into one of its adjacency sets - ComputeLeftRecursives consults the same graph for every component in turn")
 	firstGraphReadOnly(c, "C08-f")
 	abs := c.allAbs()
